@@ -297,6 +297,35 @@ func Apply(dialect string, m *gm.Schema, e EditRef) ([]string, error) {
 		cc := strings.SplitN(e.Arg, "/", 2)
 		c.Charset, c.Collation = cc[0], cc[1]
 		return []string{p + "ModifyColumn(" + e.Obj + ",charset+collate)"}, nil
+	case "drop-indexed-column":
+		for i := range t.Indexes {
+			if t.Indexes[i].Name == e.Arg {
+				t.Indexes = append(t.Indexes[:i], t.Indexes[i+1:]...)
+				break
+			}
+		}
+		for i := range t.Cols {
+			if t.Cols[i].Name == e.Obj {
+				t.Cols = append(t.Cols[:i], t.Cols[i+1:]...)
+				return []string{p + "DropColumn(" + e.Obj + ")", p + "DropIndex(" + e.Arg + ")"}, nil
+			}
+		}
+		return nil, fmt.Errorf("harness: drop-indexed-column %+v", e)
+	case "drop-generated":
+		c, err := col()
+		if err != nil {
+			return nil, err
+		}
+		c.Gen = ""
+		switch e.Arg {
+		case "default":
+			c.Default = "0"
+			return []string{p + "ModifyColumn(" + e.Obj + ",default+generated)"}, nil
+		case "null":
+			c.Null = !c.Null
+			return []string{p + "ModifyColumn(" + e.Obj + ",null+generated)"}, nil
+		}
+		return []string{p + "ModifyColumn(" + e.Obj + ",generated)"}, nil
 	case "modify-generated":
 		c, err := col()
 		if err != nil {
